@@ -554,3 +554,67 @@ pub fn families_surface_keyless_data(prop: &str, doc: &Value) -> (Vec<Pair>, usi
 	}
 	(v, seen)
 }
+
+/// S6 (C07): constructors read from the surface.  An owned collection reports
+/// itself as one lock to every duplicate check, so no constructor of it - under
+/// whatever name, checked or not - may accept members it does not own; and a
+/// constructor of the other kinds that returns the collection itself (not an
+/// `Option` / `Result`: nothing was checked) must not accept borrowed members.
+pub fn families_surface_constructors(prop: &str, doc: &Value) -> (Vec<Pair>, usize) {
+	let mut v = Vec::new();
+	let mut seen = 0usize;
+	let region = |t: &str| format!("//<<\n{t}\n//>>");
+	for (owner, tr, _ta, name, func) in functions_of(doc, &["BoxedLockCollection", "RefLockCollection", "OwnedLockCollection", "RetryingLockCollection"]) {
+		let inputs = func["sig"].get("inputs").and_then(|i| i.as_array()).cloned().unwrap_or_default();
+		if inputs.len() != 1 || inputs[0].get(0).and_then(|n| n.as_str()) == Some("self") {
+			continue;
+		}
+		let output = func["sig"].get("output").cloned().unwrap_or(Value::Null);
+		let returns_self = output.get("generic").and_then(|g| g.as_str()) == Some("Self")
+			|| output.get("resolved_path").and_then(|r| r.get("path")).and_then(|p| p.as_str()).map(|p| p.ends_with(&owner)).unwrap_or(false);
+		let mentions_self = {
+			fn m(t: &Value, owner: &str) -> bool {
+				match t {
+					Value::Object(o) => {
+						o.get("generic").and_then(|g| g.as_str()) == Some("Self")
+							|| o.get("resolved_path").and_then(|r| r.get("path")).and_then(|p| p.as_str()).map(|p| p.ends_with(owner)).unwrap_or(false)
+							|| o.values().any(|x| m(x, owner))
+					}
+					Value::Array(a) => a.iter().any(|x| m(x, owner)),
+					_ => false,
+				}
+			}
+			m(&output, &owner)
+		};
+		if !mentions_self {
+			continue;
+		}
+		seen += 1;
+		// kinds other than Owned: only constructors that hand back the collection unchecked
+		if owner != "OwnedLockCollection" && !returns_self {
+			continue;
+		}
+		let by_ref = inputs[0][1].get("borrowed_ref").is_some();
+		let is_from_iter = name == "from_iter";
+		for (lockname, ctor) in [("Mutex", "Mutex::new(0i32)"), ("RwLock", "RwLock::new(0i32)")] {
+			let (own_decl, own_arg, bor_arg) = if is_from_iter {
+				(String::new(), format!("vec![{ctor}, {ctor}]"), "vec![&a, &a]".to_string())
+			} else if by_ref {
+				(format!("    let d = ({ctor}, {ctor});\n    let e = (&a, &a);\n"), "&d".to_string(), "&e".to_string())
+			} else {
+				(String::new(), format!("({ctor}, {ctor})"), "(&a, &a)".to_string())
+			};
+			let turbofish = if is_from_iter { "::<Vec<_>>" } else { "" };
+			let template = format!("{PRELUDE}use happylock::collection::{{BoxedLockCollection, RefLockCollection, OwnedLockCollection, RetryingLockCollection}};\npub fn probe() {{\n    let a = {ctor};\n{own_decl}@@\n}}\n");
+			v.push(Pair {
+				prop: prop.into(),
+				family: "S6-surface-constructor-accepts-borrowed-members".into(),
+				name: format!("{owner}::{name}{} over &{lockname}", tr.as_ref().map(|t| format!(" ({t})")).unwrap_or_default()),
+				twin: template.replace("@@", &region(&format!("    let _c = {owner}{turbofish}::{name}({own_arg});"))),
+				offending: template.replace("@@", &region(&format!("    let _c = {owner}{turbofish}::{name}({bor_arg});"))),
+				std_offending: None,
+			});
+		}
+	}
+	(v, seen)
+}
